@@ -504,7 +504,7 @@ def slice_dim(f, slicedef, fuzzydim=True):
     for varkey in inf.variables.keys():
         var = inf.variables[varkey]
         if dimkey not in var.dimensions:
-            p2p.addVariable(inf, outf, varkey)
+            outf.copyVariable(var, key=varkey)
         else:
             axis = list(var.dimensions).index(dimkey)
             vout = var[...].swapaxes(
